@@ -56,6 +56,7 @@ type World struct {
 	Outputs   map[string]*HOutput // every output any harness actor ever created, by B_
 	OutOrder  []string
 	AllProofs []*HProof
+	LockRing  *KeyRing // keys of the spending conditions used by mint-level honest users
 
 	yIndex   map[string]string
 	yIndexed int
